@@ -45,7 +45,11 @@ fn value_matches(pat: &Value, actual: Option<&str>) -> bool {
             m.iter().all(|(k, v)| match (k.as_str(), v.as_str()) {
                 ("contains", Some(x)) => a.contains(x),
                 ("not_contains", Some(x)) => !a.contains(x),
-                _ => false,
+                _ => match (k.as_str(), v.as_array()) {
+                    // {"contains_any": ["x", "y"]}
+                    ("contains_any", Some(xs)) => xs.iter().filter_map(|x| x.as_str()).any(|x| a.contains(x)),
+                    _ => false,
+                },
             })
         }
         _ => false,
